@@ -117,6 +117,43 @@ def wrap_real(t) -> Any:
     return SymFloat(t)
 
 
+def syntactically_nonneg(t, depth=0) -> bool:
+    """sum of squares / even powers / non-negative numerals (cheap, no solver)"""
+    if depth > 6:
+        return False
+    if term_is_num(t):
+        return not z3.is_algebraic_value(t) and num_of(t) >= 0
+    if not z3.is_app(t):
+        return False
+    k = t.decl().kind()
+    ch = t.children()
+    if k == z3.Z3_OP_ADD:
+        return all(syntactically_nonneg(c, depth + 1) for c in ch)
+    if k == z3.Z3_OP_POWER:
+        return term_is_num(ch[1]) and num_of(ch[1]).denominator == 1 and int(num_of(ch[1])) % 2 == 0
+    if k == z3.Z3_OP_MUL:
+        rest = []
+        for c in ch:
+            if term_is_num(c):
+                if num_of(c) < 0:
+                    return False
+                continue
+            rest.append(c)
+        # pair up syntactically equal factors
+        while rest:
+            c = rest.pop()
+            if syntactically_nonneg(c, depth + 1):
+                continue
+            for i, d in enumerate(rest):
+                if d.eq(c):
+                    rest.pop(i)
+                    break
+            else:
+                return False
+        return True
+    return False
+
+
 def is_linear(t, _memo=None) -> bool:
     """syntactic check: no product/quotient/power of two non-numeral factors"""
     if _memo is None:
@@ -542,6 +579,44 @@ class SymInt:
 # --------------------------------------------------------------------------------------------
 
 
+class NLAbstraction:
+    """replace every non-linear subterm (product / quotient / power of non-numerals) by a fresh real, consistently per term:
+    a sound over-approximation used for PATH FEASIBILITY only, keeping those queries in linear arithmetic"""
+
+    def __init__(self):
+        self.memo = {}      # ast id -> (term kept alive, abstracted term)
+        self.vars = {}      # sexpr of nonlinear term -> fresh var
+
+    def __call__(self, t):
+        k = t.get_id()
+        hit = self.memo.get(k)
+        if hit is not None:
+            return hit[1]
+        r = t
+        if z3.is_app(t) and t.num_args() > 0:
+            kind = t.decl().kind()
+            ch = t.children()
+            nl = False
+            if kind == z3.Z3_OP_MUL and sum(0 if term_is_num(c) else 1 for c in ch) > 1:
+                nl = True
+            elif kind in (z3.Z3_OP_DIV, z3.Z3_OP_IDIV, z3.Z3_OP_MOD, z3.Z3_OP_REM) and not term_is_num(ch[1]):
+                nl = True
+            elif kind == z3.Z3_OP_POWER:
+                nl = True
+            if nl:
+                key = t.sexpr()
+                v = self.vars.get(key)
+                if v is None:
+                    v = self.vars[key] = z3.Real(f'nl!{len(self.vars)}')
+                r = v
+            else:
+                nch = [self(c) for c in ch]
+                if any(not a.eq(b) for a, b in zip(nch, ch)):
+                    r = t.decl()(*nch)
+        self.memo[k] = (t, r)
+        return r
+
+
 class Stats:
     def __init__(self):
         self.queries = 0
@@ -563,6 +638,8 @@ class Engine:
                  fp_model: bool = False, pin_check: bool = False, nl_axioms_in_feasibility: bool = True):
         self.pin_check = pin_check
         self.nl_axioms_in_feasibility = nl_axioms_in_feasibility
+        self.linear_feasibility = not nl_axioms_in_feasibility
+        self._nlabs = NLAbstraction()
         self.fp_model = fp_model
         self.fp_ops = 0
         self.rlimit = rlimit
@@ -597,6 +674,8 @@ class Engine:
     # ---- solver access
     def _check(self, *extra) -> str:
         t0 = time.perf_counter()
+        if self.linear_feasibility:
+            extra = tuple(self._nlabs(e) for e in extra)
         r = self.solver.check(*extra)
         self.stats.solver_s += time.perf_counter() - t0
         self.stats.queries += 1
@@ -606,11 +685,15 @@ class Engine:
         return s
 
     def _assert(self, t):
+        if self.linear_feasibility:
+            t = self._nlabs(t)
         self.solver.add(t)
 
     def _model_says(self, t) -> Optional[bool]:
         if self.model is None:
             return None
+        if self.linear_feasibility:
+            t = self._nlabs(t)
         try:
             v = self.model.eval(t, model_completion=True)
         except z3.Z3Exception:
@@ -634,6 +717,7 @@ class Engine:
         self.summaries = {}
         self.fresh_n = 0
         self.fp_ops = 0
+        self._nlabs = NLAbstraction()
 
     def linear_part(self):
         out = []
@@ -653,14 +737,7 @@ class Engine:
         if z3.is_true(t):
             return
         self.axioms.append(t)
-        if not self.nl_axioms_in_feasibility:
-            lin = is_linear(t)
-            self._lin_memo[t.get_id()] = lin
-            if not lin:
-                # kept for the obligations only: path feasibility is decided without it (over-approximation of the
-                # feasible paths, sound for exploration; keeps the feasibility queries in linear arithmetic)
-                return
-        self._assert(t)
+        self._assert(t)      # (under linear_feasibility the non-linear subterms are abstracted: sound over-approximation)
         if self.model is not None and self._model_says(t) is not True:
             self.model = None
 
